@@ -252,10 +252,31 @@ class Model:
         if hook in L['hooks']:
             return True
         if L['kind'] == 'class':
-            # class layers inherit hooks (the classmethod is then called with the derived class)
-            return any(self.layers[b]['kind'] == 'class' and self.has_hook(b, hook)
-                       for b in L['bases'])
+            # class layers inherit hooks (the classmethod is then called with the derived
+            # class): the first class in the MRO that defines the attribute decides
+            for n in self.mro(lname)[1:]:
+                B = self.layers[n]
+                if hook in (B.get('c_raise') or []):
+                    return False
+                if hook in B['hooks']:
+                    return True
         return False
+
+    def mro(self, lname):
+        """Names of the class layers in lname's method resolution order."""
+        if not hasattr(self, '_mro'):
+            self._mro, built = {}, {}
+
+            def cls(n):
+                if n not in built:
+                    bs = tuple(cls(b) for b in self.layers[n]['bases']
+                               if self.layers[b]['kind'] == 'class')
+                    built[n] = type(n, bs or (object,), {'_n': n})
+                return built[n]
+            for n, L_ in self.layers.items():
+                if L_['kind'] == 'class':
+                    self._mro[n] = [c._n for c in cls(n).__mro__ if c is not object]
+        return self._mro.get(lname, [lname])
 
     def discover(self):
         """All tests in discovery order: dicts with tid, sid, layer (short or None), level."""
